@@ -87,6 +87,9 @@ func Setup(c Case) (*World, error) {
 	if err := os.WriteFile(filepath.Join(w.Scratch, "import.tar"), tb, 0o666); err != nil {
 		return w, err
 	}
+	if err := os.WriteFile(filepath.Join(w.Scratch, "garbage.tar"), []byte("this is not a tar archive\n"), 0o666); err != nil {
+		return w, err
+	}
 	return w, w.Age()
 }
 
